@@ -1,4 +1,4 @@
-SPECIFICATION Spec
+SPECIFICATION ASpec
 CONSTANTS
   MaxLen = 4
   CapC = 40
@@ -8,17 +8,16 @@ CONSTANTS
   LimitH = 5
   Lim0 = 3
   Lim1 = 4
-  Ns = {1, 2, 3, 4}
-  Classes = {"s", "h", "n", "o"}
+  Ns = {1, 3}
+  Classes = {"s", "n", "o"}
   MaxBig = 1
   MaxBl = 1
   MaxEx = 0
-  MaxGrp = 2
+  MaxGrp = 1
   Pres = {0, 1}
   Bls = {TRUE, FALSE}
   Exs = {FALSE}
   Ops = {"Pack"}
-  EmitOn = FALSE
-VIEW view
-INVARIANTS TypeOK CountSizeGroupOrder SkipIsRemoval Greedy ExpireInv
+  EmitOn = TRUE
+INVARIANT Export
 CHECK_DEADLOCK FALSE
